@@ -198,3 +198,60 @@ func ParseData(b []byte) []DataFrame {
 	}
 	return out
 }
+
+// ---- hand encoders (a hostile or scripted peer does not go through the repository's
+// validating writers) ------------------------------------------------------------------
+
+func be16(v uint16) []byte { return []byte{byte(v >> 8), byte(v)} }
+func be32(v uint32) []byte { return []byte{byte(v >> 24), byte(v >> 16), byte(v >> 8), byte(v)} }
+func be64(v uint64) []byte {
+	return append(be32(uint32(v>>32)), be32(uint32(v))...)
+}
+
+// EncHeader encodes the control header for raw manifest JSON.
+func EncHeader(manifestJSON []byte) []byte {
+	out := []byte("SBC1")
+	out = append(out, be32(uint32(len(manifestJSON)))...)
+	return append(out, manifestJSON...)
+}
+
+// EncDataStreams encodes a DataStreams record.
+func EncDataStreams(n uint16) []byte { return append([]byte{WDataStrms}, be16(n)...) }
+
+// EncFileBegin encodes a FileBegin record without any validation.
+func EncFileBegin(relPath string, size uint64, chunk uint32, key uint64, alg byte) []byte {
+	out := []byte{WFileBegin}
+	out = append(out, be16(uint16(len(relPath)))...)
+	out = append(out, relPath...)
+	out = append(out, be64(size)...)
+	out = append(out, be32(chunk)...)
+	out = append(out, be64(key)...)
+	out = append(out, alg)
+	out = append(out, make([]byte, 2+2+4+4)...)
+	return out
+}
+
+// EncFileEnd encodes a FileEnd record.
+func EncFileEnd(key uint64) []byte {
+	return append(append([]byte{WFileEnd}, be64(key)...), be32(0)...)
+}
+
+// EncResumeRequest encodes a ResumeRequest record.
+func EncResumeRequest(fileID string, key uint64) []byte {
+	out := []byte{WResumeReq}
+	out = append(out, be16(uint16(len(fileID)))...)
+	out = append(out, fileID...)
+	return append(out, be64(key)...)
+}
+
+// EncEnd encodes the End record.
+func EncEnd() []byte { return []byte{WEnd} }
+
+// EncChunk encodes a data-stream chunk frame with the given CRC.
+func EncChunk(key uint64, idx uint32, data []byte, crc uint32) []byte {
+	out := be64(key)
+	out = append(out, be32(idx)...)
+	out = append(out, be32(uint32(len(data)))...)
+	out = append(out, be32(crc)...)
+	return append(out, data...)
+}
